@@ -28,6 +28,8 @@ void     nixsym_finding(const char *id, bool cond);
 void     nixsym_print(const char *msg);
 uint64_t nixsym_concretize_u64(const char *name, uint64_t v, uint32_t maxvals);
 uint32_t nixsym_count_values(uint64_t v, uint32_t maxvals);
+/* environment: the time zone of the running process, seconds east of UTC (rt/rt_libc.c; natively TZ + tzset) */
+void     vrt_set_tz(long seconds_east);
 #ifdef __cplusplus
 }
 #endif
